@@ -21,7 +21,7 @@ func (fc *fctx) callee(e *ast.CallExpr) (string, types.Object) {
 			return "builtin." + f.Name, obj
 		}
 		if obj.Parent() == t.pkg.Types.Scope() {
-			return "otp." + f.Name, obj
+			return "self." + f.Name, obj
 		}
 		return "", obj
 	case *ast.SelectorExpr:
@@ -114,7 +114,7 @@ func (fc *fctx) call(e *ast.CallExpr, nres int) string {
 	switch q {
 	case "builtin.len":
 		x := e.Args[0]
-		if fc.kind(x) != kBytes && fc.kind(x) != kStrList {
+		if fc.kind(x) != kBytes && fc.kind(x) != kStrList && fc.kind(x) != kJsList {
 			t.fail(e, "len of %s", fc.typeOf(x))
 		}
 		return "(zlen " + fc.expr(x) + ")"
@@ -147,6 +147,32 @@ func (fc *fctx) call(e *ast.CallExpr, nres int) string {
 			return "(dec_of_N " + fc.expr(e.Args[0]) + ")"
 		}
 		t.fail(e, "strconv.FormatUint with a base other than the constant 10")
+	case "(js.Value).Type":
+		return fc.bind("js_type_go " + fc.expr(e.Fun.(*ast.SelectorExpr).X))
+	case "(js.Value).String":
+		return "(js_string_go " + fc.expr(e.Fun.(*ast.SelectorExpr).X) + ")"
+	case "(js.Value).Int":
+		return fc.bind("js_int_go " + fc.expr(e.Fun.(*ast.SelectorExpr).X))
+	case "js.ValueOf":
+		switch fc.kind(e.Args[0]) {
+		case kBytes:
+			return "(WStr " + fc.expr(e.Args[0]) + ")"
+		case kBool:
+			return "(WBool " + fc.expr(e.Args[0]) + ")"
+		}
+		t.fail(e, "js.ValueOf of %s", fc.typeOf(e.Args[0]))
+	case "(error).Error", "(.error).Error":
+		if t.mainMode {
+			return fc.bind("deref " + fc.expr(e.Fun.(*ast.SelectorExpr).X))
+		}
+	case "(url.URL).String":
+		u := fc.bind("deref " + fc.expr(e.Fun.(*ast.SelectorExpr).X))
+		return "(url_string " + u + ")"
+	case "time.Unix":
+		if isConstInt(t, e.Args[1], "0") {
+			return fc.expr(e.Args[0])
+		}
+		t.fail(e, "time.Unix with a nanosecond part")
 	case "strings.ToLower":
 		return "(to_lower " + fc.args(e)[0] + ")"
 	case "strings.TrimPrefix":
@@ -220,6 +246,9 @@ func (fc *fctx) call(e *ast.CallExpr, nres int) string {
 		}
 		return fc.bind("Val (b32_decode_go " + fc.args(e)[0] + ")")
 	case "fmt.Errorf":
+		if t.mainMode {
+			return "(Some " + fc.sprintf(e) + ")" // the binding's errors are their text
+		}
 		return fc.errorf(e)
 	case "(time.Time).Unix":
 		return fc.expr(e.Fun.(*ast.SelectorExpr).X)
@@ -240,8 +269,11 @@ func (fc *fctx) call(e *ast.CallExpr, nres int) string {
 		recv := fc.expr(e.Fun.(*ast.SelectorExpr).X)
 		return fc.bind(fc.callLocal(e, "SuiteConfig."+m, []string{recv}))
 	}
-	if strings.HasPrefix(q, "otp.") {
-		name := strings.TrimPrefix(q, "otp.")
+	if t.mainMode && strings.HasPrefix(q, "otp.") {
+		return fc.libCall(e, strings.TrimPrefix(q, "otp."))
+	}
+	if strings.HasPrefix(q, "self.") {
+		name := strings.TrimPrefix(q, "self.")
 		v := fc.bind(fc.callLocal(e, name, fc.args(e)))
 		if fi := t.done[name]; fi != nil && len(fi.inout) > 0 {
 			// f(&x, ...): the callee returns its results followed by the new value of x
@@ -271,6 +303,9 @@ func (fc *fctx) call(e *ast.CallExpr, nres int) string {
 			return "(" + strings.Join(rs, ", ") + ")"
 		}
 		return v
+	}
+	if t.mainMode && q == "(otp.Digits).Int" {
+		return fc.bind("Src.Digits_Int " + fc.expr(e.Fun.(*ast.SelectorExpr).X))
 	}
 	if strings.HasPrefix(q, "(otp.") {
 		// method of a type of the package
@@ -388,10 +423,14 @@ func (fc *fctx) sprintf(e *ast.CallExpr) string {
 		k := fc.kind(a)
 		switch tmpl[i+1] {
 		case 's':
-			if k != kBytes {
+			switch {
+			case k == kBytes || k == kJsType:
+				parts = append(parts, fc.expr(a))
+			case k == kErr && t.mainMode:
+				parts = append(parts, fc.bind("deref "+fc.expr(a)))
+			default:
 				t.fail(a, "%%s of %s", fc.typeOf(a))
 			}
-			parts = append(parts, fc.expr(a))
 		case 'd':
 			switch {
 			case isUnsigned(k):
@@ -414,4 +453,42 @@ func (fc *fctx) sprintf(e *ast.CallExpr) string {
 		return "[]"
 	}
 	return "(" + strings.Join(parts, " ++ ") + ")"
+}
+
+// the library functions the binding calls: their translations in Src / SrcWasm; library errors become their text
+var libFuncs = map[string]struct {
+	coq   string
+	fuel  bool
+	pools []string
+	nres  int
+	err   bool // last result is an error
+}{
+	"DigitsFromStr":     {"Src.DigitsFromStr", false, nil, 1, false},
+	"AlgorithmFromStr":  {"Src.AlgorithmFromStr", false, nil, 1, false},
+	"DecodeSecret":      {"Src.DecodeSecret", true, nil, 2, true},
+	"TimeCounterFunc":   {"Src.TimeCounterFunc", false, nil, 1, false},
+	"GenerateTOTPURL":   {"Src.GenerateTOTPURL", true, nil, 2, true},
+	"GenerateHOTPURL":   {"Src.GenerateHOTPURL", true, nil, 2, true},
+	"DeriveRFC4226Wasm": {"SrcWasm.DeriveRFC4226Wasm", true, nil, 2, true},
+	"ValidateOTPWasm":   {"SrcWasm.ValidateOTPWasm", true, nil, 2, true},
+}
+
+func (fc *fctx) libCall(e *ast.CallExpr, name string) string {
+	lf, ok := libFuncs[name]
+	if !ok {
+		fc.t.fail(e, "library function otp.%s is not among the translated ones the binding may call", name)
+	}
+	a := []string{lf.coq}
+	if lf.fuel {
+		fc.needsFuel = true
+		a = append(a, "fuel0")
+	}
+	a = append(a, fc.args(e)...)
+	v := fc.bind(strings.Join(a, " "))
+	if lf.err {
+		w := fc.tmp()
+		fc.pre = append(fc.pre, "let "+w+" := (fst "+v+", option_map err_text (snd "+v+")) in")
+		return w
+	}
+	return v
 }
